@@ -191,7 +191,41 @@ Fixpoint pages (stms : list pipe) (L : nat) (off : nat) (n : nat) : list bytes :
             end
   end.
 
-Lemma show_pipes_names stms L off : 0 < L ->
+Lemma wrap_int_small z : (- 2 ^ 63 <= z < 2 ^ 63)%Z -> wrap_int z = z.
+Proof. intros H. unfold wrap_int. rewrite Z.mod_small by lia. lia. Qed.
+
+Lemma wrap_int_over z : (2 ^ 63 <= z < 2 ^ 64)%Z -> wrap_int z = (z - 2 ^ 64)%Z.
+Proof.
+  intros H. unfold wrap_int.
+  replace (z + 2 ^ 63)%Z with ((z - 2 ^ 63) + 1 * 2 ^ 64)%Z by lia.
+  rewrite Z.mod_add by lia. rewrite Z.mod_small by lia. lia.
+Qed.
+
+Lemma firstn_min_len {A} (l : list A) (n m : nat) : length l <= m -> firstn (Nat.min n m) l = firstn n l.
+Proof.
+  intros H. destruct (Nat.le_ge_cases n m) as [Hn|Hn].
+  - rewrite Nat.min_l by exact Hn. reflexivity.
+  - rewrite Nat.min_r by exact Hn. rewrite !firstn_all2 by lia. reflexivity.
+Qed.
+
+Lemma skipn_min_len {A} (l : list A) (n : nat) : skipn (Nat.min n (length l)) l = skipn n l.
+Proof.
+  destruct (Nat.le_ge_cases n (length l)) as [Hn|Hn].
+  - rewrite Nat.min_l by exact Hn. reflexivity.
+  - rewrite Nat.min_r by exact Hn. rewrite !skipn_all2 by lia. reflexivity.
+Qed.
+
+(* the page in terms of nat-indexed firstn/skipn, for every limit and offset of the int64 range *)
+Lemma show_pipes_page stms lim off : (0 <= off)%Z ->
+  exists total shown, show_pipes stms lim off = Some (total, shown, names (firstn (Z.to_nat (Z.min shown (Z.of_nat (length stms)))) (skipn (Z.to_nat off) stms))).
+Proof.
+  intros Ho. unfold show_pipes. destruct (Z.ltb_spec off 0) as [E|_]; [lia|].
+  eexists. eexists. f_equal. f_equal.
+  replace (Z.to_nat (Z.min off (Z.of_nat (length stms)))) with (Nat.min (Z.to_nat off) (length stms)) by lia.
+  rewrite skipn_min_len. reflexivity.
+Qed.
+
+Lemma show_pipes_names stms L off : 0 < L -> (Z.of_nat L + Z.of_nat off < 2 ^ 63)%Z ->
   show_pipes stms (Z.of_nat L) (Z.of_nat off) =
   Some (Z.of_nat (length stms),
         (if Z.ltb (Z.of_nat (length stms)) (Z.of_nat L + Z.of_nat off)
@@ -199,27 +233,47 @@ Lemma show_pipes_names stms L off : 0 < L ->
          else Z.of_nat L)%Z,
         names (firstn L (skipn off stms))).
 Proof.
-  intros HL. unfold show_pipes.
+  intros HL Hb. unfold show_pipes.
   destruct (Z.eqb_spec (Z.of_nat L) 0) as [E|_]; [lia|].
   destruct (Z.ltb_spec (Z.of_nat off) 0) as [E|_]; [lia|].
-  f_equal. f_equal. rewrite Nat2Z.id.
+  rewrite wrap_int_small by lia.
+  f_equal. f_equal.
+  replace (Z.to_nat (Z.min (Z.of_nat off) (Z.of_nat (length stms)))) with (Nat.min off (length stms)) by lia.
+  rewrite skipn_min_len.
   destruct (Z.ltb_spec (Z.of_nat (length stms)) (Z.of_nat L + Z.of_nat off)) as [H1|H1].
   - destruct (Z.ltb_spec (Z.of_nat (length stms) - Z.of_nat off) 0) as [H2|H2].
     + rewrite skipn_all2 by lia. cbn. rewrite !firstn_nil. reflexivity.
-    + replace (Z.to_nat (Z.of_nat (length stms) - Z.of_nat off)) with (length stms - off) by lia.
+    + replace (Z.to_nat (Z.min (Z.of_nat (length stms) - Z.of_nat off) (Z.of_nat (length stms)))) with (length stms - off) by lia.
       rewrite <- (skipn_length off stms). rewrite firstn_all.
       rewrite firstn_all2; [reflexivity|]. rewrite skipn_length. lia.
-  - rewrite Nat2Z.id. reflexivity.
+  - replace (Z.to_nat (Z.min (Z.of_nat L) (Z.of_nat (length stms)))) with L by lia. reflexivity.
 Qed.
 
-Lemma pages_cover stms L : 0 < L -> forall n off, length stms <= off + n * L ->
+Lemma pages_cover stms L : 0 < L -> forall n off, (Z.of_nat (off + n * L) < 2 ^ 63)%Z -> length stms <= off + n * L ->
   pages stms L off n = names (skipn off stms).
 Proof.
-  intros HL. induction n as [|n IH]; intros off Hn.
+  intros HL. induction n as [|n IH]; intros off Hb Hn.
   - cbn in *. rewrite skipn_all2 by lia. reflexivity.
-  - cbn [pages]. rewrite (show_pipes_names stms L off HL).
-    rewrite IH by (cbn in Hn; lia).
+  - cbn [pages]. rewrite (show_pipes_names stms L off HL) by (cbn in Hb; lia).
+    rewrite IH by (cbn in Hn, Hb; lia).
     unfold names. rewrite <- map_app. f_equal. apply firstn_skipn_page.
+Qed.
+
+(* any limit that is not smaller than the number of pipes, up to the largest int64 (where lim+offs wraps), lists
+   the whole rest of the listing from the offset *)
+Lemma show_pipes_rest stms lim off : (0 <= off < 2 ^ 63)%Z -> (0 < lim < 2 ^ 63)%Z -> (Z.of_nat (length stms) <= lim)%Z ->
+  exists shown, show_pipes stms lim off = Some (Z.of_nat (length stms), shown, names (skipn (Z.to_nat off) stms)).
+Proof.
+  intros Ho Hl Hlen. unfold show_pipes.
+  destruct (Z.eqb_spec lim 0) as [E|_]; [lia|].
+  destruct (Z.ltb_spec off 0) as [E|_]; [lia|].
+  eexists. f_equal. f_equal.
+  replace (Z.to_nat (Z.min off (Z.of_nat (length stms)))) with (Nat.min (Z.to_nat off) (length stms)) by lia.
+  rewrite skipn_min_len.
+  apply f_equal. apply firstn_all2. rewrite skipn_length.
+  destruct (Z.ltb_spec (Z.of_nat (length stms)) (wrap_int (lim + off))) as [H1|H1].
+  - destruct (Z.ltb_spec (Z.of_nat (length stms) - off) 0) as [H2|H2]; lia.
+  - lia.
 Qed.
 
 (* ---------- registry invariants over operation histories ---------- *)
@@ -288,17 +342,37 @@ Proof.
   apply G. constructor.
 Qed.
 
+Lemma delete_nodup r n : NoDup (names r) -> NoDup (names (fst (delete r n))).
+Proof. intros H. unfold delete. destruct (lookup r n); cbn [fst]; [apply remove_nodup; exact H|exact H]. Qed.
+
+Lemma ensure_c_go_nodup c fuel r p v : NoDup (names r) -> NoDup (names (fst (ensure_c_go c fuel r p v))).
+Proof.
+  revert r. induction fuel as [|f IH]; intros r H; cbn [ensure_c_go]; [exact H|].
+  destruct (lookup r (p_name p)).
+  - destruct (_ || _); [|exact H]. destruct c; [|exact H]. apply IH. apply delete_nodup. exact H.
+  - apply IH. apply create_nodup. exact H.
+Qed.
+
+Lemma ensure_at_start_nodup cfg : forall r, NoDup (names r) -> NoDup (names (fst (ensure_at_start r cfg))).
+Proof.
+  induction cfg as [|[p v] cfg IH]; intros r H; cbn [ensure_at_start]; [exact H|].
+  pose proof (ensure_c_go_nodup true 3 r p v H) as H1. unfold ensure_c.
+  destruct (ensure_c_go true 3 r p v) as [r' [q|]]; cbn [fst] in *; [apply IH; exact H1|exact H1].
+Qed.
+
 Definition perm_ok (perm : reg -> reg) : Prop := forall r, Permutation (perm r) r.
 
 Lemma step_nodup perm r o : NoDup (names r) -> NoDup (names (fst (step perm r o))).
 Proof.
-  intros H. destruct o as [p v|p v|n|l o|n|]; cbn [step].
+  intros H. destruct o as [p v|p v|n|l o|n| |cfg]; cbn [step].
   - pose proof (create_nodup r p v H) as H0. destruct (create r p v). exact H0.
   - pose proof (ensure_go_nodup 3 r p v H) as H0. unfold ensure. destruct (ensure_go 3 r p v). exact H0.
   - unfold delete. destruct (lookup r n); cbn [fst]; [apply remove_nodup; exact H|exact H].
   - exact H.
   - exact H.
   - apply load_nodup.
+  - pose proof (ensure_at_start_nodup cfg _ (load_nodup (save (perm r)))) as H0.
+    destruct (ensure_at_start (load (save (perm r))) cfg). exact H0.
 Qed.
 
 Lemma run_nodup perm ops : forall r, NoDup (names r) -> NoDup (names (fst (run perm r ops))).
